@@ -76,13 +76,28 @@ def _z(spec, d, s, k):
     return np.mod(x + src_ra(s, k), 1.0)
 
 
+def norm_of(first_axis_values):
+    """the non-trivial normalisation factor of spec['norm'] (a function of the event's first axis value, as the KDE
+    norm factor functions of skyllh.core.utils.multidimgridpdf are)"""
+    return 1.0 + 0.5 * first_axis_values
+
+
+def norm_factor_func(pdf, tdm, params_recarray, eventdata, evt_mask=None):
+    v = eventdata[0] if evt_mask is None else eventdata[0][evt_mask]
+    return norm_of(v)
+
+
 def world_man(spec, d, s, k, g):
     from scipy.interpolate import RegularGridInterpolator as RGI
     z = _z(spec, d, s, k)
     if spec['fields'] == 'all':
         pts = np.column_stack([z, np.full(len(z), src_ra(s, k))])
-        return RGI((EDGES, SOFF_EDGES), sig_grid(spec, g), method='linear', bounds_error=False, fill_value=0)(pts)
-    return RGI((EDGES,), sig_grid(spec, g), method='linear', bounds_error=False, fill_value=0)(z[:, None])
+        pd = RGI((EDGES, SOFF_EDGES), sig_grid(spec, g), method='linear', bounds_error=False, fill_value=0)(pts)
+    else:
+        pd = RGI((EDGES,), sig_grid(spec, g), method='linear', bounds_error=False, fill_value=0)(z[:, None])
+    if spec.get('norm'):
+        pd = pd * norm_of(z)
+    return pd
 
 
 def world_bkg(spec, d, s):
@@ -90,7 +105,10 @@ def world_bkg(spec, d, s):
     x = DATA[d]
     if spec['fields'] != 'none':
         x = np.mod(x + 0.5 * src_ra(s, 0), 1.0)       # the event-level static data field 'xs'
-    return RGI((EDGES,), bkg_grid(), method='linear', bounds_error=False, fill_value=0)(x[:, None])
+    pd = RGI((EDGES,), bkg_grid(), method='linear', bounds_error=False, fill_value=0)(x[:, None])
+    if spec.get('norm'):
+        pd = pd * norm_of(x)
+    return pd
 
 
 # ---- the real object graph ----------------------------------------------------------------------
@@ -118,14 +136,16 @@ def yields(spec):
     """detector signal yield table (1 dataset, K sources); spec['dY']: the yield depends on the source's gamma, so the
     source weights a_k have gradients and SourceWeightedPDFRatio.get_gradient reads its cached R_i / R_ik"""
     K = spec['K']
+    J = spec.get('J', 1)
+    rows = [[1.0 + 0.25 * k for k in range(K)], [0.45 + 0.3 * k for k in range(K)]][:J]   # different per dataset: f_j != 1/J
     if not spec.get('dY'):
-        return np.array([[1.0 + 0.25 * k for k in range(K)]]), None
+        return np.array(rows), None
     b = base(spec)
 
     def Y(params):
         g = np.asarray(params['gamma'], dtype=np.float64)
-        return np.array([[1.0 + 0.25 * k + 0.1 * (g[k] - b) for k in range(K)]])
-    return Y, {'gamma': lambda params: np.full((1, K), 0.1)}
+        return np.array([[rows[j][k] + 0.1 * (j + 1) * (g[k] - b) for k in range(K)] for j in range(J)])
+    return Y, {'gamma': lambda params: np.array([[0.1 * (j + 1)] * K for j in range(J)])}
 
 
 def build(spec, d, s):
@@ -203,9 +223,10 @@ def build(spec, d, s):
     G.grid = grid
     pdfs = []
     G.sig_pdfs = {}
+    nff = norm_factor_func if spec.get('norm') else None
     for g in gv:
         pdf = SignalMultiDimGridPDF(pmm=pmm, axis_binnings=sig_axes, pdf_grid_data=sig_grid(spec, g),
-                                    cache_pd_values=spec['cache'], cfg=cfg)
+                                    cache_pd_values=spec['cache'], norm_factor_func=nff, cfg=cfg)
         pdf._pdf = CRGI(tuple(bd.binedges for bd in sig_axes), sig_grid(spec, g), method='linear',
                         bounds_error=False, fill_value=0)
         pdfs.append(({'gamma': float(g)}, pdf))
@@ -217,7 +238,7 @@ def build(spec, d, s):
                                       param_grid_set=grid, gridparams_pdfs=pdfs, interpol_method_cls=icls, cfg=cfg)
     G.sigset = sigset
     bkg = BackgroundMultiDimGridPDF(pmm=pmm, axis_binnings=[BinningDefinition('x' if f == 'none' else 'xs', EDGES)],
-                                    pdf_grid_data=bkg_grid(), cache_pd_values=spec['cache'], cfg=cfg)
+                                    pdf_grid_data=bkg_grid(), cache_pd_values=spec['cache'], norm_factor_func=nff, cfg=cfg)
     bkg._pdf = CRGI((EDGES,), bkg_grid(), method='linear', bounds_error=False, fill_value=0)
     G.bkg = bkg
     inner = SigOverBkgPDFRatio(sig_pdf=sigset, bkg_pdf=bkg, same_axes=False, cfg=cfg)
@@ -265,10 +286,43 @@ def build(spec, d, s):
     tdm.initialize_trial(shg_mgr=shg_mgr, pmm=pmm, events=G.events, n_events=N_OF[d])
     single = fx.make_single_llhratio(cfg, pmm, shg_mgr, tdm, outer)
     G.single = single
-    multi = fx.make_multi_llhratio(cfg, pmm, sdw, dswf, [single])
+    llhs = [single] + second_dataset(G, spec, sdw)
+    multi = fx.make_multi_llhratio(cfg, pmm, sdw, dswf, llhs)
     G.multi = multi
     multi.initialize_for_new_trial()
     return G
+
+
+E2 = {0: 5, 1: 5, 2: 7, 3: 2}         # selected events of the second dataset per data set id
+N2 = {0: 30, 1: 30, 2: 44, 3: 9}
+STUB2_TABLE = 0.4 + 0.45 * np.arange(3 * 7, dtype=np.float64).reshape(3, 7) % 2.1
+
+
+def second_dataset(G, spec, sdw):
+    """spec['J'] == 2: a second dataset (own TrialDataManager, parameter-free sharing stub ratio, SourceWeightedPDFRatio
+    with dataset_idx=1, own ZeroSigH0SingleDatasetTCLLHRatio), so that the dataset signal weight factors f_j of the
+    composite likelihood are non-trivial"""
+    from skyllh.core.pdfratio import SourceWeightedPDFRatio
+    from skyllh.core.trialdata import TrialDataManager
+    G.tdm2 = None
+    if spec.get('J', 1) != 2:
+        return []
+    K = spec['K']
+    G.tdm2 = TrialDataManager()
+    G.events2 = fx.make_events(E2[G.d])
+    G.tdm2.initialize_trial(shg_mgr=G.shg_mgr, pmm=G.pmm, events=G.events2, n_events=N2[G.d])
+    G.stub2 = fx.StubPDFRatio(G.cfg, STUB2_TABLE[:K], share=True)
+    G.outer2 = SourceWeightedPDFRatio(dataset_idx=1, src_detsigyield_weights_service=sdw, pdfratio=G.stub2, cfg=G.cfg)
+    G.single2 = fx.make_single_llhratio(G.cfg, G.pmm, G.shg_mgr, G.tdm2, G.outer2)
+    return [G.single2]
+
+
+def _init2(G, new):
+    if getattr(G, 'tdm2', None) is None:
+        return
+    if new or len(G.events2) != E2[G.d]:
+        G.events2 = fx.make_events(E2[G.d])
+    G.tdm2.initialize_trial(shg_mgr=G.shg_mgr, pmm=G.pmm, events=G.events2, n_events=N2[G.d])
 
 
 def events_of(G, d):
@@ -283,12 +337,14 @@ def op_init(G, d):
     G.d = d
     G.events = events_of(G, d)
     G.tdm.initialize_trial(shg_mgr=G.shg_mgr, pmm=G.pmm, events=G.events, n_events=N_OF[G.d])
+    _init2(G, True)
     G.multi.initialize_for_new_trial()
 
 
 def op_reinit_same(G):
     """new trial on the *same* events array instance (it carries the data fields the previous trial stored in it)"""
     G.tdm.initialize_trial(shg_mgr=G.shg_mgr, pmm=G.pmm, events=G.events, n_events=N_OF[G.d])
+    _init2(G, False)
     G.multi.initialize_for_new_trial()
 
 
@@ -621,6 +677,21 @@ def cache_snapshot(G):
     if G.stub is not None:
         snap['stub._stored'] = _b(G.stub._stored)
     snap['single._cache_nsgrad_i'] = _b(_get(G.single, '_cache_nsgrad_i'))
+    return snap
+
+
+def service_snapshot(G):
+    """what the weight services hand out through their public get_weights(): a read-only query must never change it"""
+    snap = {}
+    if G.services is None:
+        return snap
+    for name, svc in (('src_detsigyield_weights', G.services[1]), ('ds_sig_weight_factors', G.services[2])):
+        try:
+            (w, grads) = svc.get_weights()
+        except Exception:  # noqa  (nothing calculated yet)
+            continue
+        snap[name] = _b(np.asarray(w))
+        snap[name + '.grads'] = _b({int(k): np.asarray(v) for k, v in (grads or {}).items()})
     return snap
 
 
